@@ -892,10 +892,15 @@ def _twin(op, scratch, entropy, draws, seed_override=None):
         np.random.random()
         random.random()
     g0 = launch.global_state_digest()
+    t0 = launch.SIM_THREADS["tasks"]
     with Tripwires() as tw:
         out = _run_op(op, scratch, seed_override=seed_override)
     g1 = launch.global_state_digest()
-    return out, g0 == g1, tw.sites
+    sites = set(tw.sites)
+    if launch.SIM_THREADS["tasks"] > t0:
+        # the operation handed work to a thread pool: the simulator ran those tasks in this twin's own seeded order
+        sites.add(f"thread-pool-tasks-in-seeded-order({launch.SIM_THREADS['tasks'] - t0})")
+    return out, g0 == g1, sites
 
 
 def _purge_batchie_modules():
